@@ -951,6 +951,23 @@ METHOD_HOOK = None  # set by the engine: (obj, name) -> bound callable or NotImp
 # --------------------------------------------------------------------------- collections
 
 
+def _count_step(has: T, kt: T, add: bool, ksort: str):
+    """Definitional instance of the cardinality function for one insertion: count(store(h, k, true)) is
+    count(h) plus one unless k was present; count of the empty set is zero."""
+    c = CUR
+    if c is None:
+        return
+    cnt = c.decls.fun("count_" + ksort, [has.sort], INT)
+    new = tm.Store(has, kt, tm.TRUE if add else tm.FALSE)
+    was = tm.Select(has, kt, BOOL)
+    if add:
+        c.pc.append(tm.Eq(cnt(new), tm.Ite(was, cnt(has), tm.Add(cnt(has), tm.mk_int(1)))))
+    else:
+        c.pc.append(tm.Eq(cnt(new), tm.Ite(was, tm.Sub(cnt(has), tm.mk_int(1)), cnt(has))))
+    c.pc.append(tm.Ge(cnt(has), tm.mk_int(0)))
+    c.pc.append(tm.Eq(cnt(tm.ConstArray(has.sort, tm.FALSE)), tm.mk_int(0)))
+
+
 class SymSeq(SymBase):
     """An immutable sequence of unknown length: element function and length term."""
 
@@ -1133,6 +1150,7 @@ class SymMap(SymBase):
     def __setitem__(self, key, value):
         self.value_invariant = None
         kt = self.kterm(key)
+        _count_step(self.has, kt, True, self.ksort)
         self.has = tm.Store(self.has, kt, tm.TRUE)
         self.state = self.setter(self.state, kt, value)
         c = CUR
@@ -1218,8 +1236,17 @@ class SymSet(SymBase):
     def __contains__(self, key):
         return wrap_bool(self.contains_t(key))
 
+    def clear(self):
+        self.has = tm.ConstArray(self.has.sort, tm.FALSE)
+        self.point_facts = []
+        self.elem_invariant = None
+        c = CUR
+        if c is not None:
+            c.writes.append((self, "[]"))
+
     def add(self, key):
         self.elem_invariant = None
+        _count_step(self.has, self.kterm(key), True, self.ksort)
         self.has = tm.Store(self.has, self.kterm(key), tm.TRUE)
         c = CUR
         if c is not None:
